@@ -26,6 +26,9 @@ func init() {
 
 func runC11(r *Report) {
 	c11R1(r)
+	// block lengths and offsets are derived in 64 bits (shared with C01.R7): a 32-bit product widened afterwards gives the
+	// last block of a torrent beyond 4 GiB the wrong length
+	offsetsNotNarrowed(r, "R1")
 	c11R2(r)
 	c11R2b(r)
 	c11R3(r)
